@@ -47,7 +47,13 @@ def common_installation(rng: random.Random):
         acs5.append(console.AcSpec(i, name, modes, fans + [False], (lo, hi, lo, hi), start=bounds[i], count=bounds[i + 1] - bounds[i]))
     names = {z: rng.choice(["Living", "Bed", "Z%d" % z]) for z in range(n_z)}
     ver = (rng.random() < 0.5, ["1.2.3"])
-    return console.Installation(4, acs4, names, ver), console.Installation(5, acs5, names, ver)
+    # the order in which a console lists its zone names is its own business: half of the time each console uses another
+    order4, order5 = list(names), list(names)
+    if rng.random() < 0.5:
+        rng.shuffle(order4)
+        rng.shuffle(order5)
+    return (console.Installation(4, acs4, {z: names[z] for z in order4}, ver),
+            console.Installation(5, acs5, {z: names[z] for z in order5}, ver))
 
 
 def common_ac_status(i4, i5, rng, n):
@@ -58,7 +64,7 @@ def common_ac_status(i4, i5, rng, n):
     spill, timer = rng.random() < 0.5, rng.random() < 0.5
     sp = rng.randrange(10, 36)
     temp = rng.choice([-50.0, 0.0, 150.0]) if rng.random() < 0.15 else rng.randrange(-100, 500) / 10.0
-    err = rng.choice([0, 0, 5])
+    err = rng.choice([0, 0, 5, 7])      # a fault code may change to another without clearing in between
     a = s4.AcStatusData(n, s4.AcPowerState.ON if on else s4.AcPowerState.OFF, s4.AcMode[mode], s4.AcFanSpeed[fan], spill, timer, sp, temp, err)
     b = s5.AcStatusData(n, s5.AcPowerState.ON if on else s5.AcPowerState.OFF, s5.AcMode[mode], s5.AcFanSpeed[fan], False, False, spill, timer,
                         float(sp), temp, err)
@@ -223,7 +229,10 @@ def check_c19(tier: str) -> int:
             calls += [(4, [float(t)]) for t in rng.sample(range(5, 41), 8)]
             calls += [(6, [t, rng.randrange(24), rng.randrange(60)]) for t in (0, 1)] + [(7, [0]), (7, [1]), (5, [rng.randrange(2), rng.randrange(1440)])]
             jobs = [("ac", ac4, ac5, c, a) for c, a in calls]
-            for z4, z5 in zip(ac4.zones, ac5.zones):
+            # zones are paired by identifier (the order of the `zones` sequence is not compared: an AirTouch 4 console
+            # with one AC lists them in the order of its names message, an AirTouch 5 console in ascending order)
+            by5 = {z.zone_id: z for z in ac5.zones}
+            for z4, z5 in [(z, by5[z.zone_id]) for z in ac4.zones if z.zone_id in by5]:
                 zc = [(11, [p]) for p in range(3)] + [(12, [float(t)]) for t in rng.sample(range(8, 38), 6)] + [(13, [p]) for p in rng.sample(range(-5, 106), 8)]
                 jobs += [("zone", z4, z5, c, a) for c, a in zc]
             deferred = []
